@@ -13,7 +13,9 @@ EXPLANATION = (
     "with LLVMBuildRet/LLVMBuildRetVoid; R4 IR is only generated from resolved trees: generator.declare is called on "
     "the Ok edge of resolver::resolve only, and Compiler::compile verifies the module after generating every "
     "declaration; R5 every LLVM global/function/struct created by declare is registered under the declaration's "
-    "resolution_id before use. Validity of every emitted instruction is decided by LLVM at run time: not decided.")
+    "resolution_id before use; R7 (shared with C01) struct insert/extract/GEP indices derive from the member offset the typer "
+    "resolved by name, never from source position (constant aggregates of the wrong shape pass the in-process verifier "
+    "and are only rejected by llvm-as). Validity of every emitted instruction is decided by LLVM at run time: not decided.")
 
 GEN = "alpha::generator::Generator"
 
@@ -192,3 +194,7 @@ def check(run):
     r3_order(run, F)
     r4_only_resolved(run, F)
     r5_registration(run, F)
+    # aggregate constants are not inspected by the in-process verifier: an insertvalue chain of constants with a wrong
+    # index folds into a constant of the wrong shape that only the textual IR reader rejects (shared with C01.R7)
+    from props import c01
+    c01.r7_member_index(run, F)
